@@ -240,7 +240,7 @@ class AdaptiveThresholder(SoftBitThresholder):
         # Handle LLR inputs by converting to probability space for thresholding
         if self.input_type == InputType.LLR:
             # Convert LLRs to probabilities using sigmoid: P(bit=0) = 1 / (1 + exp(-LLR))
-            x_prob = torch.sigmoid(x)
+            x_prob = torch.sigmoid(-x)
         else:
             x_prob = x
 
@@ -371,8 +371,12 @@ class MinDistanceThresholder(SoftBitThresholder):
         # Find closest reference point for each input value
         min_indices = torch.argmin(distances, dim=1)
 
-        # Map back to bit values (assuming ref_points[0] maps to bit 0)
-        result = min_indices.float()
+        # Map back to bit values (assuming ref_points[0] maps to bit 0); LLR convention: positive LLR means bit 0,
+        # so in LLR mode the decided bit is 1 iff the nearest reference LLR is negative
+        if self.input_type == InputType.LLR:
+            result = (self.ref_points[min_indices] < 0).float()
+        else:
+            result = min_indices.float()
 
         # Reshape back to original dimensions
         return result.reshape(original_shape)
